@@ -125,7 +125,10 @@ func VF_C04_b() {
 		InitGovernance("dpos", false)
 		body.Recipient = []byte(AergoEnterprise)
 	}
-	tx := &transaction{Tx: &Tx{Hash: vf.Bytes("tx.hash", idLen), Body: body}}
+	tx := &transaction{Tx: &Tx{Body: body}}
+	if vf.Choice("tx.hash.present", 2) == 0 {
+		tx.Tx.Hash = vf.Bytes("tx.hash", idLen)
+	}
 	chainIdHash := vf.Bytes("chainIdHash", idLen)
 	isPublic := vf.Bool("isPublic")
 	err := tx.Validate(chainIdHash, isPublic)
